@@ -22,6 +22,8 @@ def accessors(ctx):
 
 
 def check(ctx):
+    from ..lib import discarded_results
+    ctx.sub(discarded_results, 'C06.S3', ('qstrader/data/',), 'the quote frames are the ones the code actually sorted and filled')
     accessors(ctx)
     ctx.sub(converter)
     ctx.sub(confinement)
